@@ -16,10 +16,10 @@ open Gts
 theorem insertStepLoop_shape (locate : Seq → List Reg) (embed : Bool) (guests : List Seq)
     (r : Reg) (rest : List Reg) (i : Int) (indices : List Int) :
     Gen.insertStepLoop locate embed guests (r :: rest) i indices =
-      (Gen.goPut indices (i + 0) (Reg.head r)).bind fun ys =>
+      (Gen.clPut indices (i + 0) (Reg.head r)).bind fun ys =>
         Gen.insertStepLoop locate embed guests rest (i + 1) ys := by
   rw [Int.add_zero]
-  cases h : Gen.goPut indices i (Reg.head r) <;> simp [Gen.insertStepLoop, h]
+  cases h : Gen.clPut indices i (Reg.head r) <;> simp [Gen.insertStepLoop, h]
 
 /-- `indices := make([]int, len(rr)); for i, r := range rr { indices[i] = r.Head() }` collects the
 heads, in order, without an index out of range -/
@@ -51,7 +51,7 @@ theorem insertStepLoop2_eq (locate : Seq → List Reg) (embed : Bool) (guests : 
 index expression in it panics. -/
 theorem insertStep_eq (locate : Seq → List Reg) (embed : Bool) (guests : List Seq) (host : Seq) :
     Gen.insertStep locate embed guests host = some (guests.map fun g => Cli.insert locate embed host g) := by
-  simp only [Gen.insertStep, goMake_nat, insertStep_heads, insertStepLoop2_eq, Cli.insert, List.nil_append]
+  simp only [Gen.insertStep, clMake_nat, insertStep_heads, insertStepLoop2_eq, Cli.insert, List.nil_append]
 
 example : Gen.insertStep (fun _ => [.seg 1 3, .seg 4 2]) false [⟨[], [9]⟩, ⟨[], [8, 8]⟩] ⟨[], [1, 2, 3, 4, 5]⟩
     = some ([⟨[], [9]⟩, ⟨[], [8, 8]⟩].map fun g => Cli.insert (fun _ => [.seg 1 3, .seg 4 2]) false ⟨[], [1, 2, 3, 4, 5]⟩ g) :=
@@ -64,10 +64,10 @@ theorem insertStepFacts_eq : Gen.insertStepFacts = ["sortDesc", "copy", "write",
 theorem infixStepLoop2_shape (locate : Seq → List Reg) (embed : Bool) (hosts : List Seq)
     (r : Reg) (rest : List Reg) (i : Int) (indices : List Int) :
     Gen.infixStepLoop2 locate embed hosts (r :: rest) i indices =
-      (Gen.goPut indices (i + 0) (Reg.head r)).bind fun ys =>
+      (Gen.clPut indices (i + 0) (Reg.head r)).bind fun ys =>
         Gen.infixStepLoop2 locate embed hosts rest (i + 1) ys := by
   rw [Int.add_zero]
-  cases h : Gen.goPut indices i (Reg.head r) <;> simp [Gen.infixStepLoop2, h]
+  cases h : Gen.clPut indices i (Reg.head r) <;> simp [Gen.infixStepLoop2, h]
 
 theorem infixStep_heads (locate : Seq → List Reg) (embed : Bool) (hosts : List Seq) (rr : List Reg) :
     Gen.infixStepLoop2 locate embed hosts rr 0 (List.replicate rr.length default) = some (rr.map Reg.head) := by
@@ -90,7 +90,7 @@ theorem infixStepLoop_eq (locate : Seq → List Reg) (embed : Bool) (hosts : Lis
   appendLoop_spec (Gen.infixStepLoop locate embed hosts seq)
     (fun h => Cli.insert locate embed h seq) (fun _ => rfl)
     (fun h rest w => by
-      simp only [Gen.infixStepLoop, goMake_nat, infixStep_heads, infixStepLoop3_eq, Cli.insert]) hs written
+      simp only [Gen.infixStepLoop, clMake_nat, infixStep_heads, infixStepLoop3_eq, Cli.insert]) hs written
 
 /-- **`gts infix`, one guest record**: the scan-loop body of infix.go, as written, hands to
 `WriteSeq` the model's `Cli.insert` of each host and the scanned record, in the order of the hosts. -/
